@@ -18,7 +18,7 @@ Import ListNotations.
 Require Import Verif.Lib.Wire Verif.Lib.Text Verif.Lib.PathNorm Verif.Lib.Utf8 Verif.Lib.Percent.
 Require Verif.Gen.Facts_C01 Verif.Model.C01 Verif.Proofs.C01.
 Require Import Verif.Gen.Facts_C17 Verif.Model.C17 Verif.Proofs.C17.
-Require Import Verif.Gen.Facts_C06 Verif.Model.C06 Verif.Proofs.C06 Verif.Proofs.C06_total.
+Require Import Verif.Gen.Facts_C06 Verif.Model.C06 Verif.Proofs.C06 Verif.Proofs.C06_total Verif.Proofs.C06_ext.
 Open Scope N_scope.
 
 (* the regenerated literals are the ones the composition was written for: '%(name)s' slots for both
@@ -181,3 +181,141 @@ Theorem C06_generate_succeeds : forall p kw caps,
   exists u, generate (to_pattern p) kw = Ok u.
 Proof. exact Verif.Proofs.C06_total.generate_succeeds. Qed.
 Print Assumptions C06_generate_succeeds.
+
+(* ---------------------------------------------------------------- second part (Proofs/C06_ext.v) *)
+
+(* every pattern that comes out of the parser starts with a literal beginning with '/' ... *)
+Theorem C06_parsed_leading_slash : forall O dflt src p,
+  C01.parse_core O dflt src = C01.Ok p -> exists l r, C01.items p = C01.Lit (47 :: l) :: r.
+Proof. exact parse_core_leading_slash. Qed.
+Print Assumptions C06_parsed_leading_slash.
+
+(* ... so a generated path starts with a raw '/' (in particular it is not empty) *)
+Theorem C06_generated_starts_with_slash : forall O dflt src p kw u,
+  C01.parse_core O dflt src = C01.Ok p -> generate (to_pattern p) kw = Ok u -> exists u', u = 47 :: u'.
+Proof. exact generated_starts_with_slash. Qed.
+Print Assumptions C06_generated_starts_with_slash.
+
+(* route_roundtrip for parsed patterns: no side condition on the generated path *)
+Theorem C06_route_roundtrip_parsed : forall O dflt src p kw u caps,
+  C01.parse_core O dflt src = C01.Ok p ->
+  generate (to_pattern p) kw = Ok u -> kw_caps p kw = Some caps ->
+  C01.caps_ok O (C01.star p) (C01.items p) caps = true ->
+  sep_val O (C01.star p) (C01.items p) caps = true ->
+  exists d, spec_dict p kw = Some d /\ roundtrip O p kw = Some d.
+Proof. exact route_roundtrip_parsed. Qed.
+Print Assumptions C06_route_roundtrip_parsed.
+
+(* the text each form of value stands for: str itself, bytes decoded as ONE UTF-8 string, int / bool / float
+   stringified, a remainder sequence element-wise and joined by '/', any other sequence stringified *)
+Theorem C06_value_forms :
+  (forall b t, val_text b (KScalar (PStr t)) = if forallb valid_scalar t then Some t else None)
+  /\ (forall b bs, val_text b (KScalar (PBytes bs)) = Utf8.decode bs)
+  /\ (forall b z, val_text b (KScalar (PInt z)) = Some (show_Z z))
+  /\ (forall b k s, val_text b (KScalar (PNum k s)) = if forallb valid_scalar s then Some s else None)
+  /\ (forall l shown, val_text true (KSeq l shown) = olet ts := map_opt spec_text l in Some (join [47] ts))
+  /\ (forall l shown, val_text false (KSeq l shown) = if forallb valid_scalar shown then Some shown else None).
+Proof. exact val_text_forms. Qed.
+Print Assumptions C06_value_forms.
+
+(* the round trip spelled out for each form of a whole remainder value *)
+Theorem C06_route_roundtrip_remainder_forms : forall O p kw u caps r,
+  generate (to_pattern p) kw = Ok u -> u <> [] -> kw_caps p kw = Some caps ->
+  C01.caps_ok O (C01.star p) (C01.items p) caps = true ->
+  sep_val O (C01.star p) (C01.items p) caps = true ->
+  C01.star p = Some r -> r <> [] ->
+  exists d, roundtrip O p kw = Some d
+    /\ (forall t, assoc r kw = Some (KScalar (PStr t)) -> In (r, C01.MSegs (split_path_info t)) d)
+    /\ (forall bs, assoc r kw = Some (KScalar (PBytes bs)) ->
+          exists t, Utf8.decode bs = Some t /\ In (r, C01.MSegs (split_path_info t)) d)
+    /\ (forall z, assoc r kw = Some (KScalar (PInt z)) -> In (r, C01.MSegs (split_path_info (show_Z z))) d)
+    /\ (forall l shown, assoc r kw = Some (KSeq l shown) ->
+          exists ts, map_opt spec_text l = Some ts
+            /\ In (r, C01.MSegs (if forallb normal_segb ts then ts else split_path_info (join [47] ts))) d).
+Proof. exact route_roundtrip_remainder_forms. Qed.
+Print Assumptions C06_route_roundtrip_remainder_forms.
+
+(* ... and for each form of a {name} value *)
+Theorem C06_route_roundtrip_hole_forms : forall O p kw u caps n,
+  generate (to_pattern p) kw = Ok u -> u <> [] -> kw_caps p kw = Some caps ->
+  C01.caps_ok O (C01.star p) (C01.items p) caps = true ->
+  sep_val O (C01.star p) (C01.items p) caps = true ->
+  In n (C01.hole_names (C01.items p)) -> C01.star p <> Some n -> NoDup (C01.hole_names (C01.items p)) ->
+  exists d t, roundtrip O p kw = Some d /\ cap_of (C01.star p) kw n = Some t /\ In (n, C01.MText t) d
+    /\ (forall x, assoc n kw = Some (KScalar (PStr x)) -> t = x)
+    /\ (forall bs, assoc n kw = Some (KScalar (PBytes bs)) -> Utf8.decode bs = Some t)
+    /\ (forall z, assoc n kw = Some (KScalar (PInt z)) -> t = show_Z z).
+Proof. exact route_roundtrip_hole_forms. Qed.
+Print Assumptions C06_route_roundtrip_hole_forms.
+
+(* every '%' of a generated path / of a route path starts a %HH escape (C17's pct_ok, reused) *)
+Theorem C06_generate_pct : forall p kw u, generate (to_pattern p) kw = Ok u -> pct_ok u = true.
+Proof. exact generate_pct_ok. Qed.
+Print Assumptions C06_generate_pct.
+
+Theorem C06_route_path_pct : forall c e rs n els o kw P,
+  Verif.Proofs.C17.wf_query (o_query o) -> Verif.Proofs.C17.wf_anchor (o_anchor o) ->
+  join_elements_c c els = join_elements els ->
+  route_path c e rs n els o kw = Ok P -> pct_ok P = true.
+Proof. exact route_path_pct. Qed.
+Print Assumptions C06_route_path_pct.
+
+(* extra positional elements (with or without a remainder): each is quoted on its own (decode_segments
+   of the appended text gives the elements back one by one, so a '/' inside an element stays inside it),
+   they follow the path after exactly one '/', and the server sees the pattern text with the values in
+   place followed by the elements *)
+Theorem C06_route_path_elements_decode : forall p e rs n els o kw P caps,
+  Verif.Proofs.C17.wf_query (o_query o) -> Verif.Proofs.C17.wf_anchor (o_anchor o) ->
+  assoc n rs = Some (to_pattern p) -> route_path [] e rs n els o kw = Ok P -> kw_caps p kw = Some caps ->
+  exists ets base qt f pi,
+    spec_elements els = Some ets
+    /\ (els <> [] -> exists s, join_elements els = Ok s /\ decode_segments s = Some ets
+                               /\ exists pre, base = pre ++ s /\ (endswith_char 47 pre = true \/ pre = []))
+    /\ cut_ref P = (base, qt, f)
+    /\ wsgi_path_info (e_script e) base = Some pi
+    /\ Utf8.decode pi = Some (C01.render (C01.items p) caps ++ elements_suffix (C01.render (C01.items p) caps) ets).
+Proof. exact route_path_elements_decode. Qed.
+Print Assumptions C06_route_path_elements_decode.
+
+(* with a remainder the elements extend it: the route matches its own URL to the dictionary built from
+   the captures with the elements appended to the remainder's text *)
+Theorem C06_route_path_elements_remainder : forall O dflt src p e rs n els o kw P hc st r ets,
+  C01.parse_core O dflt src = C01.Ok p ->
+  Verif.Proofs.C17.wf_query (o_query o) -> Verif.Proofs.C17.wf_anchor (o_anchor o) ->
+  assoc n rs = Some (to_pattern p) -> route_path [] e rs n els o kw = Ok P ->
+  C01.star p = Some r -> kw_caps p kw = Some (hc ++ [st]) -> length hc = length (C01.hole_names (C01.items p)) ->
+  spec_elements els = Some ets ->
+  let caps' := hc ++ [st ++ elements_suffix (C01.render (C01.items p) (hc ++ [st])) ets] in
+  C01.caps_ok O (C01.star p) (C01.items p) caps' = true -> sep_val O (C01.star p) (C01.items p) caps' = true ->
+  exists base qt f pi,
+    cut_ref P = (base, qt, f) /\ wsgi_path_info (e_script e) base = Some pi
+    /\ match_back O p pi = Some (C01.mk_dict (C01.items p) (C01.star p) caps').
+Proof. exact route_path_elements_remainder. Qed.
+Print Assumptions C06_route_path_elements_remainder.
+
+(* urlsplit of scheme://netloc<rest> *)
+Theorem C06_url_split_authority : forall sch netloc rest,
+  scheme_ok sch = true -> forallb netloc_char netloc = true ->
+  (rest = [] \/ exists r, rest = 47 :: r) -> forallb clean rest = true ->
+  url_split (sch ++ [58; 47; 47] ++ netloc ++ rest) =
+  Ok (mkSplit (map lower sch) netloc (fst (fst (cut_ref rest))) (snd (fst (cut_ref rest))) (snd (cut_ref rest))).
+Proof. exact url_split_authority. Qed.
+Print Assumptions C06_url_split_authority.
+
+(* route_url end to end: urlsplit finds scheme and netloc, its path component leads the server to
+   PATH_INFO, the route matches PATH_INFO to the supplied values *)
+Theorem C06_route_url_way_back : forall O dflt src p e rs n o kw U caps sch netloc,
+  C01.parse_core O dflt src = C01.Ok p ->
+  Verif.Proofs.C17.wf_query (o_query o) -> Verif.Proofs.C17.wf_anchor (o_anchor o) ->
+  o_app_url o = None ->
+  host_part e o = sch ++ [58; 47; 47] ++ netloc -> scheme_ok sch = true -> forallb netloc_char netloc = true ->
+  (e_script e = [] \/ exists s, e_script e = 47 :: s) ->
+  assoc n rs = Some (to_pattern p) -> route_url [] e rs n [] o kw = Ok U ->
+  kw_caps p kw = Some caps ->
+  C01.caps_ok O (C01.star p) (C01.items p) caps = true ->
+  sep_val O (C01.star p) (C01.items p) caps = true ->
+  exists s pi, url_split U = Ok s /\ u_scheme s = map lower sch /\ u_netloc s = netloc
+    /\ wsgi_path_info (e_script e) (u_path s) = Some pi
+    /\ match_back O p pi = Some (C01.mk_dict (C01.items p) (C01.star p) caps).
+Proof. exact route_url_way_back. Qed.
+Print Assumptions C06_route_url_way_back.
